@@ -962,3 +962,56 @@ def absolute_cutoffs(chk, rule: str, why_tail: str) -> None:
                     chk.check(False, rule, fn, c, construct=f"{fn.qualname}: cut-off `{norm(c)[:60]}` is relative to the data",
                               why=f"`{norm(c)[:80]}` compares values computed from the data with the machine epsilon alone: " + why_tail)
     chk.ok(rule, "xeofs", None, construct=f"<absolute machine-epsilon cut-offs on data-derived values found: {n}>", nontrivial=False)
+
+
+# xarray methods that change WHICH sample sits at which position of the sample axis (or how many there are); reason per row
+SAMPLE_REORDER = {
+    "sortby": "orders the rows by their labels", "reindex": "orders / selects the rows by labels", "reindex_like": "orders / selects the rows by labels",
+    "roll": "rotates the rows", "sel": "selects rows by label", "drop_sel": "removes rows by label", "drop_isel": "removes rows by position",
+    "thin": "keeps every n-th row", "coarsen": "merges neighbouring rows", "resample": "re-grids the rows", "groupby": "regroups the rows",
+    "interp": "re-grids the rows", "interp_like": "re-grids the rows", "dropna": "removes rows by value", "drop_duplicates": "removes rows by label",
+    "sortby_": "", "argsort": "a permutation of the rows",
+}
+
+
+def sample_order_kept(chk, rule: str, fn: FuncInfo, ff: FuncFacts, expr: ast.expr, construct: str, why_tail: str, sample_names=("self.sample_name", "sample_name")) -> int:
+    """``expr`` (what a lag / delay computation consumes) derives from the function's data parameter without any operation
+    that re-orders, selects or re-grids the rows ALONG THE SAMPLE DIMENSION: lagged statistics pair row t with row t+1 BY
+    POSITION, so the series must reach them in the order the caller gave.  Operations whose dimension argument is
+    recognisably not the sample dimension are left alone; `isel` / `shift` are the lag mechanism itself and are judged by
+    the rules of the computation."""
+    n = 0
+    bad = []
+    for p in ff.paths(expr, spine_only=True, follow=True):
+        if p.atom.kind != "param":
+            continue
+        n += 1
+        for o in p.ops:
+            if o.kind != "method" or o.name not in SAMPLE_REORDER:
+                continue
+            call = o.node
+            args = list(getattr(call, "args", [])) + [k.value for k in getattr(call, "keywords", [])]
+            keys = [k.arg for k in getattr(call, "keywords", []) if k.arg]
+            dict_keys = [kk for a in args if isinstance(a, ast.Dict) for kk in a.keys if kk is not None]
+            named = [a for a in args if not isinstance(a, ast.Dict)] + dict_keys
+            # an operation that names only OTHER dimensions (mode=..., feature names) does not touch the sample axis
+            touches = not named and not keys
+            for a in named:
+                txt = norm(a)
+                if any(sn in txt for sn in sample_names) or txt in ("'sample'", '"sample"'):
+                    touches = True
+                try:
+                    if any(q.atom.name in sample_names for q in ff.paths(a, spine_only=True)):
+                        touches = True
+                except Exception:
+                    pass
+            if keys and not named and all(k in ("mode", "feature", "embedding") for k in keys):
+                touches = False
+            elif keys and not touches and any(k not in ("mode", "feature", "embedding", "drop", "method", "tolerance") for k in keys):
+                touches = True
+            if touches:
+                bad.append((o, SAMPLE_REORDER[o.name]))
+    chk.require(n >= 1, f"{fn.qualname}: {construct} no longer derives from the data parameter")
+    chk.check(not bad, rule, fn, bad[0][0].node if bad else expr, construct=construct,
+              why=(f"`.{bad[0][0].name}(...)` {bad[0][1]} along the sample dimension before {why_tail}" if bad else ""))
+    return n
